@@ -696,3 +696,32 @@ package protocol
 //@   property C01
 //@ struct callers StreamUnderlay.writeWithPossibleFragment = {StreamUnderlay.writeOneSegment}
 //@   property C01
+//@
+//@ // Retransmission back-off (C02): the timeout of a segment grows with the number of times
+//@ // THAT segment has been transmitted - the exponent handed to math.Pow is its transmission
+//@ // count, both when it is retransmitted and when it is first sent - so a peer that is merely
+//@ // slow is not abandoned after the fixed budget of transmissions has been spent in a burst.
+//@ // (The floating-point value itself is outside the technique; integer-to-float conversion is
+//@ // an uninterpreted function of the integer.)
+//@ func (s *Session) runOutputOncePacket__closure1(iter *segment) (r bool)
+//@   property C02
+//@   mode int
+//@   partial
+//@   posts_only
+//@   noframe
+//@   may_panic
+//@   assert_call Pow: arg1 == float64(iter.txCount)
+//@
+//@ func (s *Session) runOutputOncePacket()
+//@   property C02
+//@   mode int
+//@   partial
+//@   posts_only
+//@   noframe
+//@   may_panic
+//@   requires s != nil
+//@   assert_call Pow: arg1 == float64(seg.txCount)
+//@   loop 1:
+//@     invariant true
+//@   loop 2:
+//@     invariant true
